@@ -479,6 +479,11 @@ pub fn run(cfg: &Cfg, rep: &mut Rep) {
             check_out_of_range_text(rep, &format!("{:04}-{:03}", y, doy), Some("%Y-%j"), what);
             check_out_of_range_text(rep, &format!("{:04}-{:03}T10:20:30", y, doy), Some("%Y-%jT%H:%M:%S"), what);
         }
+        for (doy, what) in [("0", "day of year 0"), ("0.5", "day of year below 1"), ("367", "day of year 367"), ("367.5", "day of year 367"), ("999", "day of year 999"), ("400.25", "day of year beyond the year")] {
+            check_out_of_range_text(rep, &format!("{:04} {}", y, doy), Some("%Y %J"), what);
+        }
+        check_out_of_range_text(rep, &format!("{:04} {}", y, ylen + 1), Some("%Y %J"), "day of year beyond the year");
+        check_out_of_range_text(rep, &format!("{:04} {}.75", y, ylen + 1), Some("%Y %J"), "day of year beyond the year");
         let doy = 1 + (k * 7) % 365;
         for (h, mi, sc, what) in [(25u32, 0u32, 0u32, "hour"), (10, 60, 0, "minute"), (10, 20, 61, "second"), (99, 0, 0, "hour"), (10, 99, 0, "minute")] {
             check_out_of_range_text(rep, &format!("{:04}-{:03}T{:02}:{:02}:{:02}", y, doy, h, mi, sc), Some("%Y-%jT%H:%M:%S"), what);
